@@ -11,7 +11,9 @@ package c19
 import (
 	"context"
 
+	fsdb "git.defalsify.org/vise.git/db/fs"
 	"git.defalsify.org/vise.git/engine"
+	"git.defalsify.org/vise.git/persist"
 	"git.defalsify.org/vise.git/resource"
 	"git.defalsify.org/vise.git/state"
 	"vharness/app"
@@ -180,7 +182,42 @@ func Validators(v *vrt.Ctx) {
 	v.Cover("C19/validators")
 }
 
+// Files: two persisted sessions, each with a store handle of its own, on one
+// data directory of the filesystem backend, served turn by turn. The file
+// system is state too: every path that is created, written, renamed or
+// removed on behalf of one session must be that session's alone (its record,
+// and scratch files no other session's save can name). A scratch file with a
+// name both sessions use is shared mutable state that concurrent saves race
+// on, although no Go variable is shared.
+func Files(v *vrt.Ctx) {
+	k := v.Param("K")
+	ctx := context.Background()
+	dir := v.TempDir()
+	serve := func(session string, in []byte) {
+		store := fsdb.NewFsDb()
+		store.Connect(ctx, dir)
+		cfg := engine.Config{Root: "root", FlagCount: 4, SessionId: session, OutputSize: 80}
+		en := engine.NewEngine(cfg, apps.Intro()).WithPersister(persist.NewPersister(store))
+		v.FsOwner(session)
+		if _, err := en.Exec(ctx, in); err == nil {
+			en.Flush(ctx, &app.Sink{})
+		}
+		en.Finish(ctx)
+		v.FsOwner("")
+	}
+	for i := 0; i < k; i++ {
+		var in []byte
+		if i > 0 {
+			in = c07.ASCII(v, c07.Input(v, 1))
+		}
+		serve("sa", in)
+		serve("sb", in)
+	}
+	v.Cover("C19/files-history-done")
+}
+
 var Harnesses = map[string]func(*vrt.Ctx){
+	"Files": Files,
 	"Validators": Validators,
 	"Footprint": Footprint,
 }
